@@ -832,7 +832,7 @@ def run_c18(cfg: HCfg, c: Ctx) -> Any:
 
     xns = {l: xn(make(l), setup=(setup0 and l == labels[0]), resource=Resource.main_thread) for l in labels}
 
-    def pipe(x):  # type: ignore[no-untyped-def]
+    def pipe(x=11):  # type: ignore[no-untyped-def]  # (a default: a restart that omits x must still see the cached input)
         r: Dict[str, Any] = {}
         for l in labels:
             args = ([x] if takes_input[l] else ([7] if not deps[l] else [])) + [r[d] for d in deps[l]]
